@@ -497,3 +497,23 @@ Proof.
     unfold all_scheduled in Hall. rewrite forallb_forall in Hall. exact (Hall (j, row) Hin).
 Qed.
 Print Assumptions link_Result_makespan.
+
+(* ------------------------------------------------------------------ is_scheduled and the result object's read accessors
+   Which class an entry of a schedule has is the data representation (snd p = None: UnscheduledOperation, Some t:
+   ScheduledOperation); the two is_scheduled properties return the constant the model's is_sched computes from it.  The
+   accessors problem_instance / schedule hand out what the constructor stored (link_Result_init: its two arguments). *)
+Lemma link_Unscheduled_is_scheduled : forall p : psop, snd p = None -> gen_Unscheduled_is_scheduled p = is_sched p.
+Proof. intros p H. unfold gen_Unscheduled_is_scheduled, is_sched. now rewrite H. Qed.
+Print Assumptions link_Unscheduled_is_scheduled.
+
+Lemma link_Scheduled_is_scheduled : forall (p : psop) t, snd p = Some t -> gen_Scheduled_is_scheduled p = is_sched p.
+Proof. intros p t H. unfold gen_Scheduled_is_scheduled, is_sched. now rewrite H. Qed.
+Print Assumptions link_Scheduled_is_scheduled.
+
+Lemma link_Result_problem_instance : forall i s, gen_Result_problem_instance i s = i.
+Proof. reflexivity. Qed.
+Print Assumptions link_Result_problem_instance.
+
+Lemma link_Result_schedule : forall i s, gen_Result_schedule i s = s.
+Proof. reflexivity. Qed.
+Print Assumptions link_Result_schedule.
